@@ -39,6 +39,7 @@ type Case struct {
 	Scheme   string `json:"scheme"` // x509 | sa
 	Format   string `json:"format"`
 	NilEntry bool   `json:"-"`
+	Warm     []int  `json:"warm,omitempty"` // result vector of an earlier verification on the same verifier (not judged)
 }
 
 var (
@@ -120,6 +121,15 @@ func check(c Case) (string, string) {
 	v, err := verifier.NewVerifierWithOptions(ts, opts)
 	if err != nil {
 		return "harness", "verifier construction: " + err.Error()
+	}
+	if len(c.Warm) > 0 {
+		saved, savedErr := rev.Results, rev.Err
+		rev.Results, rev.Err = nil, nil
+		for _, w := range c.Warm {
+			rev.Results = append(rev.Results, result.Result(w))
+		}
+		v.Verify(context.Background(), desc, env, notation.VerifierVerifyOptions{ArtifactReference: kit.Reference(desc), SignatureMediaType: c.Format})
+		rev.Results, rev.Err, rev.Calls = saved, savedErr, nil
 	}
 	out, verr := v.Verify(context.Background(), desc, env, notation.VerifierVerifyOptions{ArtifactReference: kit.Reference(desc), SignatureMediaType: c.Format})
 	if out == nil {
@@ -258,7 +268,10 @@ func record(rec *stats.Recorder, c Case) {
 			cl = append(cl, "status=out-of-range")
 		}
 	}
-	rec.Case(cl, nt, stats.Fingerprint(fmt.Sprint(c.Vector), fmt.Sprint(c.Decor), c.ValErr, c.Iface, c.Action, c.Base, c.Scheme, c.Format), func() any { return c })
+	if len(c.Warm) > 0 {
+		cl = append(cl, "reused-verifier")
+	}
+	rec.Case(cl, nt, stats.Fingerprint(fmt.Sprint(c.Vector), fmt.Sprint(c.Warm), fmt.Sprint(c.Decor), c.ValErr, c.Iface, c.Action, c.Base, c.Scheme, c.Format), func() any { return c })
 }
 
 func evaluate(t stats.Failer, rec *stats.Recorder, c Case) {
@@ -334,6 +347,11 @@ func TestC05_Decorated(t *testing.T) {
 		for i := 0; i < n; i++ {
 			c.Vector = append(c.Vector, rp.Pick(rt, "status", 1, 1, 1, 2, 0, 3, 7))
 			c.Decor = append(c.Decor, rapid.IntRange(0, 5).Draw(rt, "decor"))
+		}
+		if rapid.IntRange(0, 2).Draw(rt, "warm") == 0 {
+			for i := 0; i < n; i++ {
+				c.Warm = append(c.Warm, rp.Pick(rt, "warmStatus", 1, 1, 2, 0, 3))
+			}
 		}
 		evaluate(rt, rec, c)
 	})
